@@ -221,6 +221,19 @@ C08_W = [
     H("w8_eof_n3", "plain Writer::write_event(eof) with a symbolic payload <=3 ASCII bytes into a Vec: exactly open+payload+close", [], cost=2),
 ]
 
+C08_WT = [
+    H("w8_start_n6", "plain Writer::write_event(start) with a symbolic payload <=6 ASCII bytes into a Vec: exactly open+payload+close", [], cost=3),
+    H("w8_end_n6", "plain Writer::write_event(end) with a symbolic payload <=6 ASCII bytes into a Vec: exactly open+payload+close", [], cost=3),
+    H("w8_empty_n6", "plain Writer::write_event(empty) with a symbolic payload <=6 ASCII bytes into a Vec: exactly open+payload+close", [], cost=3),
+    H("w8_text_n6", "plain Writer::write_event(text) with a symbolic payload <=6 ASCII bytes into a Vec: exactly open+payload+close", [], cost=3),
+    H("w8_comment_n6", "plain Writer::write_event(comment) with a symbolic payload <=6 ASCII bytes into a Vec: exactly open+payload+close", [], cost=3),
+    H("w8_cdata_n6", "plain Writer::write_event(cdata) with a symbolic payload <=6 ASCII bytes into a Vec: exactly open+payload+close", [], cost=3),
+    H("w8_decl_n6", "plain Writer::write_event(decl) with a symbolic payload <=6 ASCII bytes into a Vec: exactly open+payload+close", [], cost=3),
+    H("w8_pi_n6", "plain Writer::write_event(pi) with a symbolic payload <=6 ASCII bytes into a Vec: exactly open+payload+close", [], cost=3),
+    H("w8_doctype_n6", "plain Writer::write_event(doctype) with a symbolic payload <=6 ASCII bytes into a Vec: exactly open+payload+close", [], cost=3),
+    H("w8_eof_n6", "plain Writer::write_event(eof) with a symbolic payload <=6 ASCII bytes into a Vec: exactly open+payload+close", [], cost=3),
+]
+
 C13_Q = [
     H("c13_name_n2", "XmlName::try_from on every UTF-8 string of <=2 bytes vs the XML 1.1 Name production", ["name rejected"], crate="serde"),
     H("c13_name_n3", "XmlName::try_from on every UTF-8 string of <=3 bytes", ["long name accepted", "name rejected"], crate="serde", cost=2),
@@ -274,7 +287,7 @@ PLAN = {
   },
   "C03": {"quick": EMIT_Q + STEP1_Q, "thorough": STEP1_T, "owns_panics": True, "evidence": {}},
   "C04": {"quick": C04_Q, "thorough": [], "labels": ["C04", "C16"], "evidence": {}},
-  "C08": {"quick": C08_Q + C08_W, "thorough": [], "evidence": {}},
+  "C08": {"quick": C08_Q + C08_W, "thorough": C08_WT, "evidence": {}},
   "C19": {"quick": C19_Q, "thorough": [], "evidence": {}},
   "C16": {"quick": C16_Q + [H("e_start_n8", "ReaderState::emit_start on every scanner output <=8 bytes (expansion: the remembered name)", [], cost=2)], "thorough": C16_T, "labels": ["C16", "C01"], "evidence": {}},
   "C02": {"quick": C02_Q, "thorough": C02_T, "labels": ["C02", "C01"], "evidence": {}},
